@@ -15,6 +15,17 @@ pub const MARKS: &[u32] = &[0x301, 0x308, 0x20DD, 0xFE0F, 0x1F3FB];
 /// letters of 1–4 UTF-8 bytes
 pub const LETTERS: &[u32] = &['a' as u32, 'b' as u32, 'c' as u32, 'B' as u32, 0xE4, 0xDF, 0x4E2D, 0x1F600, 0x1F468, 0x1F469, 0x1F1E9, 0x1F1EA, 0x1100, 0x1161];
 
+/// seeds: special values (0 = the "default" a caller may treat as "unset", 1, powers of two, u64::MAX) are as
+/// likely as ordinary ones
+pub fn seed(rng: &mut ChaCha8Rng) -> u64 {
+    match rng.random_range(0..10) {
+        0 => 0,
+        1 => [1u64, 2, u64::MAX, 1 << 32, 1 << 63, u32::MAX as u64][rng.random_range(0..6)],
+        2 => rng.random(),
+        _ => rng.random_range(0..1000),
+    }
+}
+
 pub fn pick(rng: &mut ChaCha8Rng, l: &[u32]) -> char {
     char::from_u32(*l.choose(rng).unwrap()).unwrap()
 }
@@ -24,6 +35,19 @@ pub fn pick(rng: &mut ChaCha8Rng, l: &[u32]) -> char {
 pub fn ws_text(rng: &mut ChaCha8Rng, max_len: usize, exotic: bool) -> String {
     let n = rng.random_range(0..=max_len);
     let mut s = String::new();
+    if exotic && rng.random_range(0..8) == 0 {
+        // pure ASCII, but with CR LF (one grapheme cluster of two bytes) and the ASCII white space characters:
+        // the inputs on which an "ASCII fast path" differs from the segmentation
+        for _ in 0..n {
+            match rng.random_range(0..10) {
+                0 | 1 => s.push(' '),
+                2 => s.push_str("\r\n"),
+                3 => s.push(['\t', '\n', '\r', '\u{b}', '\u{c}'][rng.random_range(0..5)]),
+                _ => s.push(pick(rng, &LETTERS[..4])),
+            }
+        }
+        return s;
+    }
     for _ in 0..n {
         let r = rng.random_range(0..100);
         if r < 30 {
